@@ -992,11 +992,12 @@ func c04LoadCorpus(c *core.Ctx) []c04Case {
 func init() {
 	core.Register("C04", &core.Scenario{
 		Run: func(c *core.Ctx) {
-			c.Res.Rule = "each case: real protocol.Mux client and server exchange multi-segment traffic in both directions (4 writes per side, 100 B – 33 KB) on TCP or UDP under one traffic pattern (plain / maximal padding / low entropy mode 2 with rotation / mode 4 / TCP fragmentation); ONE unit (stream segment or datagram) of one direction is mutated in flight: byte-position class {nonce, encrypted metadata, metadata tag, middle padding, payload ciphertext incl. low-entropy encoded body, payload tag, end padding, unit boundary} x kind {bit flip, byte substitution, insertion, deletion, truncation} at a random relative offset, plus swap of two units, replay of the previous unit, reflection to the sender, splice of another unit's payload part, removal of a stream prefix with the clear-text initial nonce advanced (TCP), metadata/payload ciphertext swap and metadata-over-payload copy inside one datagram (UDP, crafted 32-byte application chunk). Oracle: TCP — bytes read are a prefix of bytes written; UDP — read = written and the transfer completes. Distinct = distinct case JSON with the mutation applied."
-			c.Correspondence("mutated unit replayed through the model receiver (StreamWire.drain / PacketWire.parse) with the ideal AEAD keyed by the honest triples seen on the wire; TCP: delivered byte count, UDP: accept/reject (acknowledged before any genuine copy arrived)")
+			c.Res.Rule = "each case: real protocol.Mux client and server exchange multi-segment traffic in both directions (8-12 writes per side, 40 B - 33 KB) on TCP or UDP under one traffic pattern (plain / maximal padding / low entropy mode 2 with rotation / mode 4 / TCP fragmentation); ONE unit (stream segment or datagram) of one direction is mutated in flight. EVERY run starts with the deterministic part: the full matrix byte-position class {nonce, encrypted metadata, metadata tag, middle padding, payload ciphertext incl. low-entropy encoded body, payload tag, end padding, unit boundary} x kind {bit flip, substitution, insertion, deletion, truncation, swap with the next unit, replay of the previous unit, reflection from the opposite direction, splice} on both transports (first / last byte of the class as offsets; the four unit-level kinds act on the byte range of the class, on the whole unit for class boundary), the low-entropy body under every kind, UDP open-session request / response and pure acks (the other parse path), the length boundaries (datagram of 71 / 72 / 1500 / 1501 bytes, payload length 1 / max-1 / max of the MTU, paddings of length 0), reflection of a data datagram that runs ahead of the peer's numbering under every pattern in both directions, removal of a stream prefix with the clear-text initial nonce advanced (TCP), metadata/payload ciphertext swap and metadata-over-payload copy inside one datagram (UDP, crafted 32-byte application chunk); then the random stream (class, kind, offset, unit, parameter, direction, pattern). The class x kind matrix of what was APPLIED is printed; an empty cell fails the run. Oracle: TCP - bytes read are a prefix of bytes written; UDP - read = written and the transfer completes; the session tag the server application reads first is content like any other. Distinct = distinct case JSON with the mutation applied."
+			c.Correspondence("mutated unit replayed through the model receiver (StreamWire.drain / Tamper.parseD) with the ideal AEAD keyed by the honest triples seen on the wire; TCP: delivered byte count, two-sided unless the model receiver is dead (teardown race); UDP: accept/reject (acknowledged before any genuine copy arrived)")
+			c.Correspondence("UDP whole run: every datagram each real endpoint's ReadFrom returned, in order, through Tamper.rxStep (parseD + session dispatch + direction test + Arq.recv; driver op c04-udp-seq): the model's delivered stream is what the sender wrote (content per segment), its length equals what the real application read once the transfer completed, and no cumulative ack of the real endpoint is ahead of what the model had accepted by then")
 			var cases []c04Case
 			cases = append(cases, c04LoadCorpus(c)...)
-			cases = append(cases, genC04Boundaries(c.Rand)...)                        // every run, before the random stream
+			cases = append(cases, genC04Boundaries(c.Rand)...)                       // every run, before the random stream
 			cases = append(cases, genC04Random(c.Rand, c.Thorough() || c.Search)...) // a broken obligation widens the search
 			for i := 0; i < 3 && i < len(cases); i++ {
 				c.Sample(cases[i])
